@@ -10,6 +10,9 @@ def gen_symbol(r):
     while True:
         n = ''.join(r.choice(SYM_CHARS) for _ in range(r.choice([1, 1, 2, 3, 5])))
         if n in ('nil', 't'): continue
+        # the parse hook is Parser::parse, which macro-expands the whole text: a data list headed by a
+        # built-in macro's name would be expanded (that is C06's subject), so those names are not data here
+        if n in ('->', '->>'): continue
         if n.startswith(':') and len(n) == 1: continue
         # must not scan as a number: -?d+ , -?d*.d*  (no '.' in the alphabet, so only integers)
         body = n[1:] if n.startswith('-') else n
